@@ -452,8 +452,25 @@ func (i *interpreter) atomicOp(fn *ssa.Function, args []value) value {
 // ---------------------------------------------------------------------------
 // lock discipline (vGuarded)
 
+// inHarness reports whether the instruction being executed belongs to a
+// harness function (H_* / v*): oracles may read guarded state without the lock.
+func (i *interpreter) inHarness() bool {
+	if i.w.cur == nil {
+		return false
+	}
+	fn := i.w.cur.Parent()
+	for fn.Parent() != nil {
+		fn = fn.Parent()
+	}
+	if fn.Pkg != i.w.ex.cfg.Pkg {
+		return false
+	}
+	n := fn.Name()
+	return strings.HasPrefix(n, "H_") || (len(n) > 1 && n[0] == 'v' && n[1] >= 'A' && n[1] <= 'Z')
+}
+
 func (i *interpreter) guardCheck(addr *value, write bool) {
-	if len(i.w.guards) == 0 {
+	if len(i.w.guards) == 0 || i.inHarness() {
 		return
 	}
 	for _, g := range i.w.guards {
@@ -466,7 +483,7 @@ func (i *interpreter) guardCheck(addr *value, write bool) {
 }
 
 func (i *interpreter) guardCheckObj(m *omap, write bool) {
-	if len(i.w.guards) == 0 {
+	if len(i.w.guards) == 0 || i.inHarness() {
 		return
 	}
 	for _, g := range i.w.guards {
